@@ -2,7 +2,7 @@
 From Coq Require Import NArith List Bool.
 From Verif Require Import Sx Str Tok.
 From Verif.Model Require Import C15.
-From Verif.Proofs Require Import C15.
+From Verif.Proofs Require Import C15 C15inj.
 Import ListNotations.
 Local Open Scope N_scope.
 
@@ -26,9 +26,20 @@ Theorem c15_injected_declares : forall enc,
   match injected enc with TEmpty _ n a => is_name s_meta n = true /\ declares enc a | _ => False end.
 Proof. exact injected_declares. Qed.
 
-(* PARTIAL: "exactly one token is injected, directly after the head start tag, and only when no declaration was
-   found before </head>" is visible in the model (step: the EndTag-head case) and validated by correspondence, but
-   not stated as a theorem; the byte-level claims (every unencodable character becomes a character reference, the
+(* WHERE AND WHEN: for EVERY stream with one head element (pre, <head>, mid, </head>, post, no other head tags), the
+   output is the input with every meta declaration rewritten (rw), plus exactly one <meta charset=ENCODING> directly
+   after the head start tag if and only if no declaration (decl) came before </head> *)
+Theorem c15_one_declaration_injected_iff_none_found : forall enc pre ns h a mid ns' h' post,
+  forallb plain pre = true -> forallb plain mid = true -> forallb plain post = true ->
+  is_name s_head h = true -> is_name s_head h' = true ->
+  IMC enc (pre ++ [TStart ns h a] ++ mid ++ [TEnd ns' h'] ++ post)
+  = map (rw enc) pre ++ [TStart ns h a] ++
+    (if existsb (decl enc) pre || existsb (decl enc) mid then [] else [injected enc]) ++
+    map (rw enc) mid ++ [TEnd ns' h'] ++ map (rw enc) post.
+Proof. exact imc_one_head. Qed.
+
+(* PARTIAL: streams with several or unclosed head elements are covered by c15_only_meta_values_change and the
+   correspondence run only; the byte-level claims (every unencodable character becomes a character reference, the
    prescan finds the declaration, the decoded tree is the same) are decided by the end-to-end run over all
    codecs of webencodings.LABELS, with three recorded findings (non-ASCII-compatible encodings, raw-text
    elements, C1 controls). *)
